@@ -107,15 +107,8 @@ func (self Compiler) getMangledFn(input string) (string, bool) {
 		}
 	}
 
-	// TODO: i don't think that this is really reliable
-	for _, module := range self.modules {
-		for key, fn := range module {
-			if key == input {
-				return fn.MangledName, true
-			}
-		}
-	}
-
+	// A name which is neither a function of this module nor one of its imports is not a function of the program:
+	// it refers to a value of the host's scope, even if some other module has a function of the same name.
 	return "", false
 }
 
